@@ -29,6 +29,8 @@ type peerScript struct {
 	EOF     bool   `json:"eof,omitempty"`               // the peer closes its side after the delivered chunks
 	Tail    int    `json:"tail,omitempty"`              // bytes of frame data following the response in its last chunk
 	Gate    int    `json:"gate,omitempty"`              // the peer starts accepting writes at this time after connect; <0 = never
+	TLS     bool   `json:"tls_peer,omitempty"`      // the client speaks TLS: the peer reacts to the first bytes written (the ClientHello) with Garbage bytes that are no TLS record
+	Garbage int    `json:"garbage,omitempty"`
 	SlowDL  bool   `json:"slow_set_deadline,omitempty"` // every Set*Deadline call takes slowDL of virtual time before it takes effect
 }
 
@@ -61,6 +63,11 @@ func (s *peerScript) response(req []byte) []byte {
 	key := requestKey(req)
 	var b bytes.Buffer
 	switch s.Resp {
+	case "tlsgarbage":
+		for i := 0; i < s.Garbage; i++ {
+			b.WriteByte("GARBAGE, NOT A TLS RECORD. "[i%27])
+		}
+		return b.Bytes()
 	case "valid":
 		b.WriteString("HTTP/1.1 101 Switching Protocols\r\nUpgrade: websocket\r\nConnection: Upgrade\r\nSec-WebSocket-Accept: " + acceptFor(key) + "\r\nServer: scripted-peer\r\n\r\n")
 	case "status400":
@@ -216,6 +223,7 @@ type fakeConn struct {
 	reqDone  bool
 	chunks   [][]byte
 	timers   []*time.Timer
+	layers   []*passConn
 	deadIO   int // I/O calls that failed on an expired deadline or a closed conn
 	runaway  int // deadIO when the runaway was recorded, 0 = none
 }
@@ -388,7 +396,7 @@ func (c *fakeConn) write(p []byte) (int, error) {
 			return 0, io.ErrClosedPipe
 		case c.gateOpen:
 			c.req = append(c.req, p...)
-			if !c.reqDone && bytes.Contains(c.req, []byte("\r\n\r\n")) {
+			if !c.reqDone && (c.script.TLS || bytes.Contains(c.req, []byte("\r\n\r\n"))) {
 				c.reqDone = true
 				c.startPeerLocked()
 			}
@@ -529,7 +537,77 @@ func (c *fakeConn) shutdown() {
 }
 
 // state is a snapshot used by the oracle.
+// passConn is a pass-through wrapper as Dialer.TLSClient / Dialer.WrapConn
+// may return one: it forwards every call and records it, under its own name,
+// in the raw conn's log; it keeps the deadlines and the closed flag it was
+// given, so the oracle can be applied to every layer of the chain.
+type passConn struct {
+	name   string
+	inner  net.Conn
+	raw    *fakeConn
+	rd, wd time.Time // guarded by raw.mu
+	closed bool
+}
+
+func (p *passConn) note(kind, arg string, f func()) {
+	p.raw.mu.Lock()
+	i := p.raw.appendLocked(p.name+"."+kind, -1, arg)
+	p.raw.log[i].Done = true
+	if f != nil {
+		f()
+	}
+	p.raw.mu.Unlock()
+}
+
+func (p *passConn) Read(b []byte) (int, error) {
+	p.note("Read", "", nil)
+	return p.inner.Read(b)
+}
+
+func (p *passConn) Write(b []byte) (int, error) {
+	p.note("Write", "", nil)
+	return p.inner.Write(b)
+}
+
+func (p *passConn) Close() error {
+	p.note("Close", "", func() { p.closed = true })
+	return p.inner.Close()
+}
+
+func (p *passConn) SetDeadline(t time.Time) error {
+	err := p.inner.SetDeadline(t)
+	p.note("SetDeadline", dlArg(t), func() { p.rd, p.wd = t, t })
+	return err
+}
+
+func (p *passConn) SetReadDeadline(t time.Time) error {
+	err := p.inner.SetReadDeadline(t)
+	p.note("SetReadDeadline", dlArg(t), func() { p.rd = t })
+	return err
+}
+
+func (p *passConn) SetWriteDeadline(t time.Time) error {
+	err := p.inner.SetWriteDeadline(t)
+	p.note("SetWriteDeadline", dlArg(t), func() { p.wd = t })
+	return err
+}
+
+func (p *passConn) LocalAddr() net.Addr  { return p.inner.LocalAddr() }
+func (p *passConn) RemoteAddr() net.Addr { return p.inner.RemoteAddr() }
+
+// wrap adds a recording pass-through layer on top of inner.
+func (c *fakeConn) wrap(name string, inner net.Conn) net.Conn {
+	p := &passConn{name: name, inner: inner, raw: c}
+	c.mu.Lock()
+	c.layers = append(c.layers, p)
+	c.mu.Unlock()
+	return p
+}
+
 type connState struct {
+	LayerOpen string // a wrapper layer that has not seen Close
+	LayerShut string // a wrapper layer that has seen Close
+	LayerDL   string // a wrapper layer left with a deadline
 	LogLen  int
 	Closed  bool
 	RD, WD  time.Time
@@ -540,7 +618,18 @@ type connState struct {
 func (c *fakeConn) state() connState {
 	c.mu.Lock()
 	defer c.mu.Unlock()
-	return connState{len(c.log), c.closed, c.rd, c.wd, c.nio, c.runaway}
+	st := connState{LogLen: len(c.log), Closed: c.closed, RD: c.rd, WD: c.wd, IOs: c.nio, Runaway: c.runaway}
+	for _, p := range c.layers {
+		if p.closed {
+			st.LayerShut = p.name
+		} else {
+			st.LayerOpen = p.name
+		}
+		if !p.rd.IsZero() || !p.wd.IsZero() {
+			st.LayerDL = fmt.Sprintf("%s (read %s, write %s)", p.name, dlArg(p.rd), dlArg(p.wd))
+		}
+	}
+	return st
 }
 
 func (c *fakeConn) copyLog() []event {
